@@ -16,4 +16,5 @@ Extraction "moc_model.ml"
   Build.build_ranges Build.build_cells Build.build_dcells Build.kway
   Repr.normal_cellsb Repr.uniq_hpx Repr.from_uniq_hpx Repr.to_zuniq Repr.from_zuniq Repr.scale
   Serial.encode_rows Serial.decode_rows Serial.fits_pad Serial.decode_cells
-  ST.pts_opb ST.pts_eqb ST.valid2db ST.wfb ST.time_orderedb ST.s_at.
+  ST.pts_opb ST.pts_eqb ST.valid2db ST.wfb ST.time_orderedb ST.s_at
+  ST.obs_moc ST.r2d_okb ST.cov2b ST.tfold ST.sfold ST.space_cell.
